@@ -23,8 +23,10 @@ ValKinds == {"bare", "unq", "dq", "sq"}
 \* value ids; the spellings live in the concretiser (and are asserted to avoid the enclosing quote)
 ValsOf(k) == CASE k = "bare" -> {"-"}
                [] k = "unq"  -> {"v1", "uni"}
-               [] k = "dq"   -> {"empty", "gt", "ltkv", "otherq", "uni", "looktag", "cmtchars"}
-               [] k = "sq"   -> {"empty", "gt", "ltkv", "otherq", "uni", "looktag"}
+               \* "bslash": a value ending in a backslash (the grammar has no escapes: the quote after it closes the value);
+               \* "url" / "cmtchars": values holding the comment markers of the surrounding language (// and #)
+               [] k = "dq"   -> {"empty", "gt", "ltkv", "otherq", "uni", "looktag", "cmtchars", "bslash", "url"}
+               [] k = "sq"   -> {"empty", "gt", "ltkv", "otherq", "uni", "looktag", "bslash", "url"}
 AttrSet == UNION {[name : Names, vk : {k}, val : ValsOf(k)] : k \in ValKinds}
 
 LookAlikes == {"none", "text", "b_tag", "lone_lt", "a_lt_b", "blockquote", "selfclose", "upper", "spaced", "noattr_glued", "unterminated",
